@@ -6,11 +6,12 @@
    with its constant loop caps (2^16 counts, 4096 extension flags) replaced by fuel taken from the input:
    hevc_fuel nalu = 8*|nalu| + 10.  `c16_hparse_*` run over ER, the C13 model of bits.EBSPReader.
    For EVERY byte list: Err or Ok, never Panic (the one index expression sets[idx - deltaIdx] of
-   parseShortTermRPS is shown in range), never OutOfFuel except where stated: never OutOfFuel IS the
-   iteration bound (each data-driven loop runs at most 8*|nalu| + 10 times).
+   parseShortTermRPS is shown in range), never OutOfFuel: never OutOfFuel IS the iteration bound (each data-driven
+   loop runs at most 8*|nalu| + 10 times).  The PPS multilayer / 3D extension bodies, which C15 does not model,
+   are C16's own skeletons of hevc/pps.go.
    Parameter-set maps: the slice-header theorem holds for EVERY map whose entries satisfy the boolean
-   well-formedness predicates hsps_wfb / hpps_wfb (st_ref_pic_set list at least as long as announced, uint8
-   ranges of the Go fields); the SPS and PPS theorems show that the parsers only return such values, and
+   well-formedness predicates hsps_wfb / hpps_wfb (st_ref_pic_set list at least as long as announced, every
+   NumDeltaPocs <= 254, uint8 range of num_extra_slice_header_bits); the SPS and PPS theorems show that the parsers only return such values, and
    C16_hevc_ParsePSAndSlice_total composes the three stages for hostile input at every stage. *)
 From V.lib Require Import Base.
 From V.c13 Require Import C13Model.
@@ -22,14 +23,26 @@ Theorem C16_hevc_ParseSPSNALUnit_total : forall nalu : list N,
 Proof. exact c16_hparse_sps_total_b. Qed.
 Print Assumptions C16_hevc_ParseSPSNALUnit_total.
 
-(* OutOfFuel here means exactly: the PPS selects pps_multilayer_extension or pps_3d_extension, which the C15
-   model does not cover (hparse_pps: `if mf || df then out_of_fuel`); nothing is proved about those
-   extension bodies (search only).  Hence _partial.  Full statement wanted: Err \/ exists p, ... Ok p. *)
-Theorem C16_hevc_ParsePPSNALUnit_total_partial : forall (spsmap : N -> bool) (nalu : list N),
-  c16_hparse_pps spsmap nalu = Err \/ c16_hparse_pps spsmap nalu = OutOfFuel \/
-  exists p, c16_hparse_pps spsmap nalu = Ok p /\ hpps_wfb p = true.
+(* every SPS the parser returns has at most 64 short-term reference picture sets, exactly as many as announced, and
+   every NumDeltaPocs is at most 95 = 16 + 16 + 63 (an inter-predicted set has at most one entry more than its
+   reference).  NumDeltaPocs is a uint8 and hevc.parseShortTermRPS loops `for j := byte(0); j <= numDeltaPocs; j++`,
+   which never ends for 255: the guard constants 64 and 16 of hevc/sps.go are what keeps 255 out of reach
+   (with the first guard at 255 instead of 64 a chain of 225 sets reaches it: the search has that unit). *)
+Theorem C16_hevc_ParseSPSNALUnit_rps_bound : forall (nalu : list N) (s : hsps),
+  c16_hparse_sps nalu = Ok s ->
+  h_num_st_rps s <= 64 /\ lenN (h_st_rps s) = h_num_st_rps s /\
+  Forall (fun r => rps_ndelta r <= 95) (h_st_rps s).
+Proof. exact c16_hparse_sps_rps_bound. Qed.
+Print Assumptions C16_hevc_ParseSPSNALUnit_rps_bound.
+
+(* EVERY PPS, the range, multilayer (with the colour mapping table and its recursive octants), 3D (depth look-up
+   tables) and SCC extension bodies included: Err or Ok.  The multilayer / 3D bodies are C16's own skeletons of
+   hevc/pps.go (C16HevcParseModel.v): reads, conditions, loop counts and error exits; their decoded values are not
+   kept (the slice-header parser does not use them). *)
+Theorem C16_hevc_ParsePPSNALUnit_total : forall (spsmap : N -> bool) (nalu : list N),
+  c16_hparse_pps spsmap nalu = Err \/ exists p, c16_hparse_pps spsmap nalu = Ok p /\ hpps_wfb p = true.
 Proof. exact c16_hparse_pps_total_b. Qed.
-Print Assumptions C16_hevc_ParsePPSNALUnit_total_partial.
+Print Assumptions C16_hevc_ParsePPSNALUnit_total.
 
 Theorem C16_hevc_ParseSliceHeader_total :
   forall (spsmap : N -> option hsps) (ppsmap : N -> option hpps) (nalu : list N),
@@ -43,8 +56,7 @@ Print Assumptions C16_hevc_ParseSliceHeader_total.
    mp4ff-nallister; cs / cp: reference sets already in the maps) *)
 Theorem C16_hevc_ParsePSAndSlice_total : forall (cs : list hsps) (cp : list hpps) (a b rest : list N),
   forallb hsps_wfb cs = true -> forallb hpps_wfb cp = true ->
-  hevc_ps_and_slice cs cp a b rest = Err \/ hevc_ps_and_slice cs cp a b rest = OutOfFuel \/
-  exists h, hevc_ps_and_slice cs cp a b rest = Ok h.
+  hevc_ps_and_slice cs cp a b rest = Err \/ exists h, hevc_ps_and_slice cs cp a b rest = Ok h.
 Proof. exact hevc_ps_and_slice_total. Qed.
 Print Assumptions C16_hevc_ParsePSAndSlice_total.
 
@@ -57,8 +69,7 @@ Print Assumptions C16_hevc_ParseSPSAndSEI_total.
 
 (* decoder configuration record -> its SPS and PPS NAL units -> slice segment header *)
 Theorem C16_hevc_DecConfRecAndSlice_total : forall recb rest : list N,
-  hevc_confrec_and_slice recb rest = Err \/ hevc_confrec_and_slice recb rest = OutOfFuel \/
-  exists h, hevc_confrec_and_slice recb rest = Ok h.
+  hevc_confrec_and_slice recb rest = Err \/ exists h, hevc_confrec_and_slice recb rest = Ok h.
 Proof. exact hevc_confrec_and_slice_total. Qed.
 Print Assumptions C16_hevc_DecConfRecAndSlice_total.
 
@@ -69,8 +80,7 @@ Proof. exact c16_hparse_sps_agrees. Qed.
 Print Assumptions C16_hevc_ParseSPSNALUnit_agrees_with_C15_model.
 
 Theorem C16_hevc_ParsePPSNALUnit_agrees_with_C15_model : forall (spsmap : N -> bool) (nalu : list N),
-  c16_hparse_pps spsmap nalu <> OutOfFuel -> hparse_pps_er spsmap nalu <> OutOfFuel ->
-  c16_hparse_pps spsmap nalu = hparse_pps_er spsmap nalu.
+  hparse_pps_er spsmap nalu <> OutOfFuel -> c16_hparse_pps spsmap nalu = hparse_pps_er spsmap nalu.
 Proof. exact c16_hparse_pps_agrees. Qed.
 Print Assumptions C16_hevc_ParsePPSNALUnit_agrees_with_C15_model.
 
@@ -107,3 +117,21 @@ Proof. split; [eexists; split; [vm_compute; reflexivity|split; reflexivity]|vm_c
 Example ex_hevc_short : c16_hparse_sps [] = Err /\ c16_hparse_pps (fun _ => true) [68] = Err /\
   c16_hparse_slice (fun _ => None) (fun _ => None) [2; 1; 208] = Err.
 Proof. vm_compute. repeat split. Qed.
+
+(* the fourth reference PPS of the harness selects the multilayer extension (C15's model: OutOfFuel) *)
+Definition ex_hpps_ext : list N := [68; 1; 193; 245; 129; 29; 2; 160].
+Example ex_hevc_pps_multilayer :
+  (exists p, c16_hparse_pps (fun _ => true) ex_hpps_ext = Ok p /\ pp_ml_flag p = true) /\
+  hparse_pps_er (fun _ => true) ex_hpps_ext = OutOfFuel.
+Proof. split; [eexists; split; [vm_compute; reflexivity|reflexivity]|vm_compute; reflexivity]. Qed.
+
+(* hand-written PPS selecting BOTH extensions: one ref_loc_offset entry with a resample phase set, a colour mapping
+   table (octant depth 1, no split, one coded residual with 9-bit res_coeff_r), a depth look-up table coded as delta
+   DLT (num_val 3, max_diff 4, two 2-bit differences); hevc.ParsePPSNALUnit returns it without error; one byte less is
+   an error *)
+Definition ex_hpps_ml_3d : list N :=
+  [68; 1; 192; 113; 128; 21; 128; 64; 159; 192; 79; 13; 128; 32; 8; 0; 64; 8; 6; 8; 0; 26].
+Example ex_hevc_pps_ml_3d :
+  (exists p, c16_hparse_pps (fun _ => true) ex_hpps_ml_3d = Ok p /\ pp_ml_flag p = true /\ pp_3d_flag p = true) /\
+  c16_hparse_pps (fun _ => true) (removelast ex_hpps_ml_3d) = Err.
+Proof. split; [eexists; split; [vm_compute; reflexivity|split; reflexivity]|vm_compute; reflexivity]. Qed.
